@@ -439,6 +439,13 @@ struct OptDriver : DriverBase<OptDriver<T>> {
                 }
                 unspec[a] = false;
                 changed(was, engaged);
+                // the source of a converting copy is untouched; the source of a converting move stays engaged (its value is
+                // moved-from), exactly as with std::optional
+                bool srcHas = false;
+                observe("convert-source", [&] { srcHas = src.has_value(); });
+                if (srcHas != engaged || (engaged && st.k[1] % 2 == 0 && static_cast<int>(*src) != val)) {
+                    ctx.violation("C07", "diff:optional:convert-source", "the source optional<U> of a converting assignment changed its engaged state / value");
+                }
             }
             return;
         }
